@@ -141,7 +141,15 @@ impl AsyncRead for ScriptStream {
                     return Poll::Ready(Ok(()));
                 }
                 let n = buf.remaining().min(bs.len());
-                buf.put_slice(&bs[..n]);
+                if me.sh.lock().unwrap().read_polls % 2 == 0 {
+                    // the way TLS streams fill a ReadBuf (tokio-native-tls, tokio-rustls): initialise ALL of the unfilled part, hand it to
+                    // a synchronous read as a plain slice, then advance by what was read - `initialized()` runs ahead of `filled()`
+                    let unfilled = buf.initialize_unfilled();
+                    unfilled[..n].copy_from_slice(&bs[..n]);
+                    buf.advance(n);
+                } else {
+                    buf.put_slice(&bs[..n]);
+                }
                 bs.drain(..n);
                 if bs.is_empty() {
                     me.r.pop_front();
